@@ -43,27 +43,29 @@ type Define struct {
 }
 
 type Contract struct {
-	Key        string
-	Extern     bool
-	Pure       bool
-	Functional bool // pure and a function of its (first-class) arguments only: modelled as an uninterpreted function plus its postconditions
+	Key           string
+	Extern        bool
+	Pure          bool
+	Functional    bool // pure and a function of its (first-class) arguments only: modelled as an uninterpreted function plus its postconditions
 	Deterministic bool // assumed (not checked): the result is a function of the arguments; modelled like functional
-	Inline     bool
-	Propagates []string // property tags: an error returned by a callee makes this function return an error
+	Inline        bool
+	Propagates    []string // property tags: an error returned by a callee makes this function return an error
 	HasPropagates bool
-	Trusted    bool // contract is assumed, body not verified (listed in evidence)
-	Requires   []*Clause
-	Ensures    []*Clause
-	Invariants []*Clause
-	Modifies   []ast.Expr
-	ModAll     bool
-	Ghosts     []Ghost
-	Defines    map[string]*Define
-	Params     []string // for extern: parameter names
-	File       string
-	Line       int
-	Props      map[string]bool
-	Used       bool
+	Trusted       bool       // contract is assumed, body not verified (listed in evidence)
+	Instantiate   []ast.Expr // extra integer terms at which the ghost postconditions of callees are instantiated (evaluated at each call)
+	Unreachable   int        // number of return statements that cannot be reached under the precondition (vacuity allowance)
+	Requires      []*Clause
+	Ensures       []*Clause
+	Invariants    []*Clause
+	Modifies      []ast.Expr
+	ModAll        bool
+	Ghosts        []Ghost
+	Defines       map[string]*Define
+	Params        []string // for extern: parameter names
+	File          string
+	Line          int
+	Props         map[string]bool
+	Used          bool
 }
 
 // SpecFunc is an uninterpreted function that exists only in specifications.
@@ -75,11 +77,11 @@ type SpecFunc struct {
 
 type ContractSet struct {
 	NonNilMaps []ast.Expr // map types whose stored values are never nil (checked at every update, assumed at every lookup)
-	SpecFuncs map[string]*SpecFunc
-	Funcs   map[string]*Contract
-	Order   []string
-	Defines map[string]*Define
-	Lemmas  []*Lemma
+	SpecFuncs  map[string]*SpecFunc
+	Funcs      map[string]*Contract
+	Order      []string
+	Defines    map[string]*Define
+	Lemmas     []*Lemma
 }
 
 // Lemma is a closed implication over spec functions, discharged by the solver.
@@ -93,7 +95,7 @@ type Lemma struct {
 	Line    int
 }
 
-var kwRe = regexp.MustCompile(`^(func|extern|lemma|emits|specfunc|mapinv|requires|ensures|invariant|modifies|ghost|define|pure|functional|deterministic|propagates|inline|trusted|assume|prove)\b`)
+var kwRe = regexp.MustCompile(`^(func|extern|lemma|emits|specfunc|mapinv|requires|ensures|invariant|modifies|ghost|define|pure|functional|deterministic|propagates|inline|trusted|unreachable|instantiate|assume|prove)\b`)
 var propRe = regexp.MustCompile(`^\[([A-Z0-9, ]+)\]\s*`)
 var invRe = regexp.MustCompile(`^invariant\[(\d+)\]\s*`)
 
@@ -256,6 +258,24 @@ func (cs *ContractSet) ParseFile(path string) error {
 					cur.Props[strings.TrimSpace(p)] = true
 				}
 			}
+		case "instantiate":
+			if cur == nil {
+				return fmt.Errorf("%s: instantiate outside contract", loc)
+			}
+			e, err := parser.ParseExpr(r.text)
+			if err != nil {
+				return fmt.Errorf("%s: instantiate: %v", loc, err)
+			}
+			cur.Instantiate = append(cur.Instantiate, e)
+		case "unreachable":
+			if cur == nil {
+				return fmt.Errorf("%s: unreachable outside contract", loc)
+			}
+			n, err := strconv.Atoi(strings.Fields(r.text + " x")[0])
+			if err != nil {
+				return fmt.Errorf("%s: unreachable needs a number", loc)
+			}
+			cur.Unreachable = n
 		case "pure", "inline", "trusted", "functional", "deterministic":
 			if cur == nil {
 				return fmt.Errorf("%s: %s outside contract", loc, r.kw)
